@@ -327,6 +327,7 @@ RULES = [
 from ..selftest import M  # noqa: E402
 F = 'txtorcon/torcontrolprotocol.py'
 MUTANTS = [
+    M('ok-cut-before-dispatch', F, "        self.response = ''\n        if self.code is None:\n            raise RuntimeError(\"No code set yet in broadcast response.\")", "        self.response = ''\n        if resp.endswith('\\nOK'):\n            resp = resp[:-3]\n        if self.code is None:\n            raise RuntimeError(\"No code set yet in broadcast response.\")", ['R02.1']),
     M('code-600-refused', F, "        elif self.code >= 600 and self.code < 700:", "        elif self.code > 600 and self.code < 700:", ['R02.1']),
     M('payload-by-whitespace-split', F, "self.events[name].got_update(rest[len(name) + 1:])", "self.events[name].got_update(rest.split(None, 1)[1] if len(rest.split(None, 1)) > 1 else '')", ['R02.6']),
     M('event-falls-through', F, "            self._handle_notify(self.code, resp)\n            self.code = None\n            return\n", "            self._handle_notify(self.code, resp)\n", ['R02.1']),
